@@ -21,7 +21,6 @@ import (
 	"net/http"
 	"net/http/httptest"
 	"regexp"
-	"runtime"
 	"runtime/debug"
 	"sort"
 	"strconv"
@@ -878,15 +877,14 @@ func vf37HTTPCall(c *vf37HTTPClient, call int, k *vf37Kind, reqBody []byte) {
 	}
 }
 
-// vf37IsolateGlobals makes an execution independent of process-global caches
-// in the code under test that survive from one execution to the next:
-// sync.Pool contents are dropped by two collections (primary + victim cache),
-// and the collector is then held off for the execution so that a pool is not
-// emptied at a timing-dependent point in the middle of a history. The returned
-// func restores the collector.
+// vf37IsolateGlobals keeps process-global caches of the code under test
+// (sync.Pool) from changing at a timing-dependent point in the middle of a
+// history: the collector is held off for the execution (forcing collections to
+// empty the pools up front costs ~30 ms per execution and is not needed: hook
+// token ids are unique across executions, so state left in a pool by an
+// EARLIER execution can never be mistaken for a token of this one). The
+// returned func restores the collector.
 func vf37IsolateGlobals() func() {
-	runtime.GC()
-	runtime.GC()
 	old := debug.SetGCPercent(-1)
 	return func() { debug.SetGCPercent(old) }
 }
